@@ -135,7 +135,8 @@ def wire_stage(work, res, tier, prefixes, replay=None):
             res.violation(formula, key, [lines[ln]])
             if len(res.violations) > n0 and res.violations[-1][2] and json.loads(lines[ln]).get("ev") != "Codec":
                 e = json.loads(lines[ln])
-                c = {k: e[k] for k in ("s", "r", "msg", "path", "peerCrc", "shrinks", "attack", "foreignKey", "otherLabel")}
+                c = {k: e[k] for k in ("s", "r", "msg", "path", "peerCrc", "shrinks", "attack", "foreignKey", "otherLabel", "pad")}
+                c["fixedPad"] = True
                 open(res.violations[-1][2] + ".case", "w").write(json.dumps(c) + "\n")
     classes = set()
     with open(trace) as fh:
